@@ -256,6 +256,46 @@ class Ctx:
             raise Inconclusive("L1 model check failed for %s/%s: %s" % (module, cfg, r.violated or r.error or "unknown"))
         return r
 
+    def inductive(self, module, indinv="IndInv", safety="Safety", timeout=1200):
+        """Unbounded-depth safety by an inductive invariant (Apalache): Init => IndInv, IndInv /\\ Next => IndInv' and
+        IndInv => Safety.  Like an L1 failure, a failing obligation is a spec/design problem (exit 2), never a code violation;
+        a run cut short by its time budget is recorded as not complete."""
+        scratch = os.path.join(self.work, "apalache-" + module)
+        os.makedirs(scratch, exist_ok=True)
+        shutil.copy(os.path.join(SPEC, module + ".tla"), scratch)
+        obligations = [("init", ["--init=Init", "--inv=" + indinv, "--length=0"]),
+                       ("step", ["--init=IndInit", "--inv=" + indinv, "--length=1"]),
+                       ("implies", ["--init=IndInit", "--inv=" + safety, "--length=0"])]
+        ent = {"module": module, "cfg": "apalache inductive invariant %s => %s" % (indinv, safety), "generated": 0, "distinct": 0,
+               "depth": 0, "ok": True, "obligations": {}}
+        t0 = time.time()
+        env = dict(os.environ, JAVA_OPTS="-Xmx8g")
+        for name, args in obligations:
+            t = time.time()
+            try:
+                p = subprocess.run(["apalache-mc", "check"] + args + ["--out-dir=" + os.path.join(scratch, "out"), module + ".tla"],
+                                   cwd=scratch, env=env, stdout=subprocess.PIPE, stderr=subprocess.STDOUT, text=True, timeout=timeout)
+                out = p.stdout
+            except subprocess.TimeoutExpired:
+                ent["obligations"][name] = "timeout after %d s" % timeout
+                ent["complete"] = False
+                self.notes.append("inductive %s/%s: obligation cut short by its time budget of %d s (not proved in this run)" % (module, name, timeout))
+                continue
+            if "The outcome is: NoError" in out and "EXITCODE: OK" in out:
+                ent["obligations"][name] = "proved in %.0f s" % (time.time() - t)
+            else:
+                ent["ok"] = False
+                ent["obligations"][name] = "FAILED"
+                log(out[-3000:])
+                self.cov["l1"].append(ent)
+                shutil.rmtree(scratch, ignore_errors=True)
+                raise Inconclusive("inductive invariant obligation '%s' of %s failed (spec problem, not a code violation)" % (name, module))
+        ent["wall_s"] = round(time.time() - t0, 1)
+        self.cov["l1"].append(ent)
+        shutil.rmtree(scratch, ignore_errors=True)
+        log("[%s] inductive %s: %s (%.0fs)" % (self.pid, module, ent["obligations"], ent["wall_s"]))
+        return ent
+
     # ------------------------------------------------------------- scenarios
     def run_scenarios(self, scs, name="sc", par=16, isolate=False, timeout=1800, child_timeout=60, cmd=None):
         hcmd = cmd      # (the name cmd is reused for the argument vector below)
